@@ -16,7 +16,7 @@
     panic, not out-of-fuel, not "invalid configuration", not any other error kind. *)
 From ClapModel Require Import Base.Bytes Base.Machine Base.Utf8.
 From ClapModel Require Import Parse.Cmd Parse.Build Parse.Valid Parse.Matcher Parse.Errors Parse.Validator Parse.Parser.
-From ClapModel Require Import ParseProofs.Safe ParseProofs.Totality ParseProofs.TotalityMain ParseProofs.FlagSubClass ParseProofs.FsTotality ParseProofs.FsAny ParseProofs.FsLine.
+From ClapModel Require Import ParseProofs.Safe ParseProofs.Totality ParseProofs.TotalityMain ParseProofs.FlagSubClass ParseProofs.FsTotality ParseProofs.FsAny ParseProofs.FsLine ParseProofs.FsResume.
 From ClapModel Require ParseProofs.Sites.
 From ClapModel Require Import Errors.RenderModel Errors.RenderLink.
 From Coq Require Import ZArith Lia.
@@ -385,6 +385,45 @@ Example single_clusters_examples :
   /\ single_clusters [[112]; [45; 120; 61]] = false.                                              (* `-x=` is a cluster *)
 Proof. repeat split; vm_compute; reflexivity. Qed.
 
+(** * lines on which no short flag-subcommand letter is followed by more of its cluster (FsResume.v): the entry point *)
+Lemma letters_inb_bin_name L c0 b : letters_inb L (c0 <| c_bin_name := b |>) = letters_inb L c0.
+Proof. apply letters_inb_frame. destruct c0; reflexivity. Qed.
+
+Theorem parse_top_no_resume c0 L argv : unbuilt c0 = true -> valid c0 = true ->
+  letters_inb L c0 = true -> no_resume L argv = true ->
+  match parse_top c0 argv with OPanicked _ | OOutOfFuel => False | _ => True end.
+Proof.
+  intros Hu Hv HL Hl. unfold parse_top.
+  destruct (is_set s_no_binary_name c0); [apply (do_parse_no_resume _ L); assumption|].
+  destruct argv as [|bin rest]; [apply (do_parse_no_resume _ L); assumption|].
+  assert (Hl' : no_resume L rest = true).
+  { unfold no_resume in *. cbn [forallb] in Hl. apply andb_true_iff in Hl. apply Hl. }
+  destruct (c_bin_name c0); [apply (do_parse_no_resume _ L); assumption|].
+  destruct (utf8_valid bin && negb (is_nil bin)); [|apply (do_parse_no_resume _ L); assumption].
+  apply (do_parse_no_resume _ L);
+    [rewrite unbuilt_bin_name; exact Hu|rewrite valid_bin_name; exact Hv|rewrite letters_inb_bin_name; exact HL|exact Hl'].
+Qed.
+
+Lemma single_clusters_no_resume L toks : single_clusters toks = true -> no_resume L toks = true.
+Proof.
+  unfold single_clusters, no_resume. induction toks as [|t ts IH]; [reflexivity|]. cbn [forallb].
+  intros H. apply andb_true_iff in H. destruct H as [H1 H2]. rewrite (IH H2), Bool.andb_true_r.
+  apply single_cluster_tok_ok. apply Bool.negb_true_iff. exact H1.
+Qed.
+
+(** non-vacuity and sharpness on the nested definition of the finding (letters S, Q): clusters of ordinary flags, with a
+    flag-subcommand letter at their END, parse through both levels; one letter behind `S` or `Q` leaves the class *)
+Example no_resume_examples :
+  unbuilt stale_cmd = true /\ valid stale_cmd = true /\ flag_sub_class stale_cmd = false
+  /\ letters_inb [83; 81] stale_cmd = true /\ letters_inb [83] stale_cmd = false
+  /\ no_resume [83; 81] [[112]; [45; 83]; [45; 120; 119; 81]; [45; 121]] = true         (* p -S -xwQ -y *)
+  /\ outcome_kind (parse_top stale_cmd [[112]; [45; 83]; [45; 120; 119; 81]; [45; 121]]) = Some None
+  /\ single_clusters [[112]; [45; 83]; [45; 120; 119; 81]; [45; 121]] = false
+  /\ no_resume [83; 81] [[112]; [45; 83; 120]; [45; 81; 121]] = false                               (* p -Sx -Qy *)
+  /\ no_resume [83; 81] [[112]; [45; 83; 120]] = false                                              (* p -Sx: parses, but outside *)
+  /\ outcome_kind (parse_top stale_cmd [[112]; [45; 83; 120]]) = Some None.
+Proof. repeat split; vm_compute; reflexivity. Qed.
+
 (** * the property statement at the entry point, in one theorem *)
 Theorem parser_errors_render_top c0 argv e : parse_top c0 argv = OErr e ->
   rich_alternatives e <> []
@@ -405,6 +444,7 @@ Theorem entry_point_summary c0 argv : unbuilt c0 = true -> valid c0 = true ->
       (rich_alternatives e <> [] /\ forall r, In r (rich_alternatives e) -> forall dbg s, render dbg r <> Panic s)
       /\ (is_set s_ignore_errors c0 = true -> e_kind e = EDisplayHelp \/ e_kind e = EDisplayVersion)
   | OPanicked s => s = 920 /\ flag_sub_class c0 = false /\ single_clusters argv = false
+                   /\ (forall L, letters_inb L c0 = true -> no_resume L argv = false)
   | OOutOfFuel | OInvalidConfig => False
   end.
 Proof.
@@ -419,8 +459,11 @@ Proof.
   - split; [exact H9|split].
     + destruct (flag_sub_class c0) eqn:Hc; [|reflexivity]. exfalso.
       pose proof (parse_top_total_fs_any_bin c0 argv Hc Hv) as T. rewrite E in T. exact T.
-    + destruct (single_clusters argv) eqn:Hl; [|reflexivity]. exfalso.
-      pose proof (parse_top_single_clusters c0 argv Hu Hv Hl) as T. rewrite E in T. exact T.
+    + split.
+      * destruct (single_clusters argv) eqn:Hl; [|reflexivity]. exfalso.
+        pose proof (parse_top_single_clusters c0 argv Hu Hv Hl) as T. rewrite E in T. exact T.
+      * intros L HL. destruct (no_resume L argv) eqn:Hl; [|reflexivity]. exfalso.
+        pose proof (parse_top_no_resume c0 L argv Hu Hv HL Hl) as T. rewrite E in T. exact T.
   - exact H9.
   - (* OInvalidConfig: the gate accepted the definition *)
     exfalso. revert E. unfold parse_top.
